@@ -627,6 +627,9 @@ func Tagged(w *load.World, c *core.Collector) {
 
 type fieldOrigin struct{ structT, field string }
 
+// partialFoldHelpers: module functions that return a folded string on some paths and an unfolded one on others.
+var partialFoldHelpers = map[string]bool{}
+
 func foldSlice(v ssa.Value, seen map[ssa.Value]bool, fields map[fieldOrigin]bool, lowered *bool) {
 	if v == nil || seen[v] {
 		return
@@ -634,6 +637,29 @@ func foldSlice(v ssa.Value, seen map[ssa.Value]bool, fields map[fieldOrigin]bool
 	seen[v] = true
 	switch x := v.(type) {
 	case *ssa.Call:
+		if f := x.Call.StaticCallee(); f != nil && ssax.InModule(f) && len(seen) < 400 {
+			// a folding helper of the module: it folds only if every one of its returns is a folded value
+			all, any := true, false
+			for _, b := range f.Blocks {
+				ret, ok := b.Instrs[len(b.Instrs)-1].(*ssa.Return)
+				if !ok || b == f.Recover || len(ret.Results) == 0 {
+					continue
+				}
+				var l bool
+				foldSlice(ret.Results[0], map[ssa.Value]bool{}, map[fieldOrigin]bool{}, &l)
+				if l {
+					any = true
+				} else {
+					all = false
+				}
+			}
+			if any && all {
+				*lowered = true
+			}
+			if any && !all {
+				partialFoldHelpers[f.String()] = true
+			}
+		}
 		if f := x.Call.StaticCallee(); f != nil {
 			switch f.String() {
 			case "strings.ToLower", "strings.ToUpper", "strings.ToLowerSpecial", "strings.ToValidUTF8":
@@ -721,6 +747,7 @@ func isKeyType(t types.Type) bool {
 func Fold(w *load.World, c *core.Collector) {
 	props := []string{"C02"}
 	n := 0
+	partialFoldHelpers = map[string]bool{}
 	foldsIn := map[*ssa.Function]bool{} // top-level methods that contain (or whose literals contain) a fold site
 	topOf := func(f *ssa.Function) *ssa.Function {
 		for f.Parent() != nil {
@@ -798,7 +825,16 @@ func Fold(w *load.World, c *core.Collector) {
 			if foldsIn[f] {
 				c.Add("FOLD", key, core.OK, w.Position(f.Pos()), "", props...)
 			} else {
-				c.Add("FOLD", key, core.Violation, w.Position(f.Pos()), "this method of a case-aware index hands key operands to the inner index without folding them on the case-insensitive branch: values that differ only in case are diffed, stored or looked up as different keys", props...)
+				msg := "this method of a case-aware index hands key operands to the inner index without folding them on the case-insensitive branch: values that differ only in case are diffed, stored or looked up as different keys"
+				var hs []string
+				for h := range partialFoldHelpers {
+					hs = append(hs, load.Short(h))
+				}
+				sort.Strings(hs)
+				if len(hs) > 0 {
+					msg += fmt.Sprintf(" (the helper(s) %v fold on some paths only: they return their argument unfolded on others)", hs)
+				}
+				c.Add("FOLD", key, core.Violation, w.Position(f.Pos()), msg, props...)
 			}
 		}
 		c.Count("case_aware_forwarding_methods", np)
